@@ -138,8 +138,8 @@ CATALOGUE = [
             "                    self._groups[table_group_key] = _stale\n                    return _stale\n",
      'note': 'after evicting down to an empty cache the evicted group is re-used for the new key'},
     {'id': 'm-c13-wire-flag-never-set', 'props': ['C13'], 'file': TD,
-     'old': "        if self._is_wired:\n            return\n        else:\n            self._is_wired = True\n",
-     'new': "        if self._is_wired:\n            return\n",
+     'old': "            raise\n        self._is_wired = True\n",
+     'new': "            raise\n",
      'note': 'wire() twice duplicates the node tree'},
     {'id': 'm-c13-group-cached-before-d-loaded', 'props': ['C13'], 'file': T,
      'old': "            a = TableA(table_group_key)\n            b = TableB(table_group_key, self.extra_b_entries)\n            c = TableC(table_group_key)\n            r = TableR(table_group_key)\n            d = TableD(b, c, r, table_group_key, self.extra_d_entries)\n            self._groups[table_group_key] = BufrTableGroup(a, b, c, d, r)\n",
